@@ -531,6 +531,8 @@ def playback(ov: Overlay, module, harness, vals, release=False, tag="x"):
     env["CARGO_TERM_PROGRESS_WHEN"] = "never"
     env["CARGO_TARGET_DIR"] = str(ov.root / ("target-playback-rel" if release else "target-playback"))
     env["RUST_BACKTRACE"] = "0"
+    # the crate's release profile asks for fat LTO, which the playback std rlibs cannot take part in (no bitcode)
+    env["CARGO_PROFILE_RELEASE_LTO"] = "false"
     cmd = [str(KANI_HOME / "toolchain" / "bin" / "cargo"), "test"] + (["--release"] if release else []) + \
         ["--no-default-features", "--features=release", "--target", "x86_64-unknown-linux-gnu", "-Zhost-config",
          "-Ztarget-applies-to-host", '--config=host.rustflags=["--cfg=kani_host"]', "--",
